@@ -79,4 +79,5 @@ def main() -> None:
     net.finish("bounded", "reference-encoder streams: arbitrary eviction victims, IRI split points, explicit/zero ids, redundant and early entries, elision on/off, random frame cuts, empty frames, repeated options rows, leading empty frames, both framings, versions 1-2 with namespace rows; 3 physical types",
                "each case = one byte string (distinct by bytes); outputs compared as lists (grouped: as multisets per stream)")
 if __name__ == "__main__":
-    main()
+    from common import run_main
+    run_main(main, "C04")
